@@ -26,7 +26,20 @@ CFG = {
     "exhaustive": {"quick": False, "thorough": False},
     "rule": "the input space is infinite (exhaustive=false); fully enumerated sub-spaces on every run: every 2-byte terminator over {SP,CR,LF,NUL,x} x 4 type letters x "
             "entry position (first subsection / first and second entry of a later subsection), the 3 legal terminators x 10 "
-            "continuations, all 125 width triples (listed below); corpus (defect #32 inputs, spot checks, past failures); all 125 width triples {0..4}^3 x with/without /Index x random rows (plus truncated rows, a type byte "
+            "continuations, all 125 width triples (listed below); corpus (defect #32 inputs, spot checks, past failures, views.case: 15 minimal cases on restricted views); "
+            "EVERY generated case below is run twice: on a plain ParseBuffer and (case tag `vw <steps> <prehex> <sufhex> <case>`, Driver/ViewTwin.lean, same design as C05) on a RESTRICTED VIEW whose window is the "
+            "buffer the parser is given (tab: the table bytes, xs: the stream content, xz: the rows as compressed by the harness - sizes written relative to the window length n) inside ONE larger allocation "
+            "pre ++ window ++ suf; the harness applies the chain of RestrictView / RestrictViewFrom steps, checks that the view shows exactly the window, and runs XrefSectP / XrefStreamP on the view - "
+            "bytes in front of the window 1 / 7 / 11 / 1000 (also 0, 2, 3, 5, 13, 64; a rotation of a text holding a header line, a complete cross-reference stream object, a complete table, trailer and startxref; "
+            "or random bytes) x chain {RestrictView, RestrictViewFrom, From then View, View then View with junk on both sides of the inner window, View then From, View starting at 0 then From, View-From-View} "
+            "x bytes behind the window that CONTINUE the construct {a further subsection (with / without a leading blank), further entries then a subsection, the cut-off rest of a truncated table / entry / "
+            "of truncated rows, further rows, trailer or endstream text, an empty zlib stream, nothing} (periods 16 x 7 x 5, pairwise coprime: all 560 combinations within any 560 consecutive cases); "
+            "expectation = the expectation on the window's bytes alone (model of a view = model of its window, justified by C17's theorem view_refines_copy; the unchanged code reports <pos>, the section's span, "
+            "the cursor, every entry's start offset and the stream parser's end cursor as cursors of the view it was given: nothing is re-based to the allocation, nothing outside the window is read); "
+            "oracle classes of view cases are prefixed view-; plus the CUT family: 3 tables of three subsections (3 spellings of header EOL / leading blanks) with the view ending at EVERY byte "
+            "(thorough; quick: every 3rd position and every subsection end), the rest of the table and a trailer lying behind the view - a described legal table (exactly the complete subsections) where the "
+            "cut falls on a subsection end, raw elsewhere - and 3 four-row streams (W [1 2 1], [0 1 0], [2 4 3]) with the view ending at every byte of the rows, the remaining rows behind it (rejected unless complete); "
+            "all 125 width triples {0..4}^3 x with/without /Index x random rows (plus truncated rows, a type byte "
             "above 2, a wide type field with non-zero high bytes and a legal low byte, Flate with none/Predictor 1/PNG-Up at two compression levels); 44 single-field corruptions of the stream "
             "dictionary; n random legal tables (1-4 subsections, random starts up to 2^63-1000, leading zeros, blanks, header EOLs, "
             "0-5 entries, 3 terminators) each with 2 (quick) or all 26 (thorough) single-field corruptions (incl. sign/blank in the number fields) of one entry, one "
@@ -35,9 +48,11 @@ CFG = {
             "described) is re-read from the bytes by the spec alone (xref keyword, claimed headers, fixed 20-byte form at every "
             "claimed entry offset, claimed value and numbering) - class accepts-malformed-entry. "
             "non-trivial = described table with >= 2 subsections or a corruption; stream case with >= 4 content bytes or a "
-            "non-standard dictionary",
+            "non-standard dictionary; a case on a view: the case is non-trivial (a raw table: >= 20 bytes) and the window is a proper part of the allocation",
     "trusted_base": COMMON_TB + [
-        "modelled, not verified: ParseBuffer (extract/exact/peek/parse_allowed_bytes) as list operations on a whole buffer (views: C17); "
+        "modelled, not verified: ParseBuffer (extract/exact/peek/parse_allowed_bytes) as list operations on a whole buffer; a restricted view is modelled by its window (the model of a `vw` case is the "
+        "model of the case on the window's bytes, after checking that the chain of RestrictView / RestrictViewFrom steps selects that window by the bounds rules of transforms.rs; that ParseBuffer's primitives on a "
+        "view behave like those of a buffer holding the window is C17's theorem view_refines_copy) - the correspondence run itself exercises the real parsers on real views; "
         "str::parse::<usize> on ASCII digits as positional decimal value; BTreeMap dictionary as an association list with unique keys",
         "external to the model: the filter transforms (FlateDecode, predictors) are a parameter of the model; `xz` cases check the "
         "composition with the real transforms against rows compressed by the harness (flate2) - their correctness is C06/C07",
@@ -45,7 +60,7 @@ CFG = {
         "(parsed independently in Lean and in Rust)",
     ],
     "assumptions": [
-        "the buffer is an unrestricted ParseBuffer (restricted views are covered by C17)",
+        "theorems: the buffer is a byte list with the cursor inside it (an unrestricted ParseBuffer, or by C17 the window of a view); correspondence: plain buffers and restricted views of every shape listed in the rule",
         "table_roundtrip: every subsection holds at least one entry, subsection starts and counts are below 2^63 (i64 integers), "
         "blanks before a later header contain no CR; what follows the table does not start a number after optional blanks",
         "xref-stream theorems: integers in the dictionary are i64 values (so start + count cannot overflow usize)",
@@ -55,7 +70,7 @@ LEVEL = {
     "design_ref": "DESIGN.md 3.C13",
     "technique": "Lean 4 theorems over an executable line-by-line model of XrefEntP/XrefSubSectP/XrefSectP and XrefStreamP "
                  "(get_dict_info, filters, parse_stream) + differential correspondence with the Rust parsers, judged by an "
-                 "independent declarative spec (encoders, 20-byte entry form, dictionary meaning, row slicing)",
+                 "independent declarative spec (encoders, 20-byte entry form, dictionary meaning, row slicing); every case also on a restricted view (window inside a larger allocation)",
     "text": "Machine-checked proof, for all inputs: (table) XrefSectP on the encoding of any non-empty list of non-empty subsections "
             "(any partition, starts < 2^63, header numbers with any leading zeros, blanks, any header EOL white space) of entries "
             "with any of the three terminators returns exactly those entries numbered consecutively from each subsection's start "
@@ -71,5 +86,7 @@ LEVEL = {
             "declarative slicing of the content accepts and returns exactly its entries - truncated rows, types above 2 and all "
             "dictionary malformations are rejected (xrefstream_spec); neither decoder can panic and the fuel of the two modelled "
             "loops suffices (table_never_panics, parseStream_never_panics, wsEolLoop/sectLoop_fuel_sufficient). Tied to the code by a correspondence run over encoder-generated tables "
-            "and streams, single-field corruptions, all 125 width triples and Flate+PNG-Up compositions.",
+            "and streams, single-field corruptions, all 125 width triples and Flate+PNG-Up compositions, each run on a plain buffer and again on a restricted view "
+            "(RestrictView / RestrictViewFrom / views of views; junk in front of the window, table- or row-continuing bytes behind it; views ending at every byte of a table / of the rows), where the result "
+            "must be that of the window's bytes alone.",
 }
